@@ -399,7 +399,8 @@ fn gen_client_op(g: &mut G, k: &Knobs, c: usize, n_actors: usize, own: &mut Vec<
         14 => Op::Sleep(g.pick(&k.sleeps)),
         15 => Op::Yield(g.range(1, 3) as u32),
         16 if depth == 0 => {
-            let inner = match g.below(5) {
+            let inner = match g.below(6) {
+                5 => Op::AskJoin { h: a as u32, m: gen_msg(g, k, a, n_actors, 0, true) },
                 4 => Op::Stop { h },
                 0 => Op::Tell { h, m: gen_msg(g, k, a, n_actors, 0, false) },
                 1 => Op::TellT { h, m: gen_msg(g, k, a, n_actors, 0, false), ms: g.pick(&k.timeouts) },
